@@ -45,6 +45,36 @@ CHECKS = {
   "note": "Assumes fieldpath accessors touch exactly their constant path. Not decided: value equality, CRD pruning, SSA field ownership. Known finding F6 (open): ClientSideCompositeSyncer merges XR spec into claim spec.",
   "technique": "static analysis: constant-table extraction and inclusion (AST + go/types), SSA provenance of filter arguments, gate-crossing reachability",
  },
+ "C09": {
+  "text": "Static analysis of the connection-secret path: both publishers store a key only on the filter-empty-or-listed edge with the allow map built from the whole configured filter; nothing is written unless the owner asks for a secret; the XR secret Apply carries the owner guard and a nil==empty no-op suppression on .Data; every publisher built by the XRD controller gets the XRD's key list; the details published are this reconcile's Compose result; the claim secret is written only on the source-controller-UID==XR-UID edge and its data is exactly the source's. Decides filtering/gating/provenance, not extraction values.",
+  "note": "Assumes the runtime Applicator honours its options. Not decided: value-level extraction, pre-existing secret contents.",
+  "technique": "static analysis: gate-crossing reachability, SSA provenance of filter/option arguments, predicate-closure inspection",
+ },
+ "C10": {
+  "text": "Static analysis of the P&T renderer: every dispatching switch is exhaustive over its enum and fails closed; the conversions table is complete; each of the 53 optional-pointer dereferences is guarded by a nil test of the same access path, an assignment from a tested path or a successful Validate() that rejects nil; user-supplied indices are bounded on both sides; no panicking type assertion; patches never hand their source to a mutating call; a rendered object is stored for application only on feasible paths (flag constants propagated) that crossed the success edge of all three render steps. Decides totality/ordering shapes and name-to-operation agreement, not arithmetic or round-trip laws.",
+  "note": "Assumes fieldpath stores deep copies. Not decided: purity as a function, wildcard expansion, transform arithmetic, convert round trips, hostile format strings. Finding F3 (fixed by f622d90) is re-derived by R10.3 on the pre-fix code.",
+  "technique": "static analysis: enum exhaustiveness, nil-guard dominance by access path, bound-check edges, feasible-path enumeration with constant flag propagation",
+ },
+ "C11": {
+  "text": "Static analysis of the CRD derivation: author-derived property stores precede and never follow the machinery property stores into the same map; each field of the version/CRD literals comes from its stated source; Required/XValidations/OneOf/XPreserveUnknownFields are carried from the parsed author schema and the author loops have no filter; claim names are validated before the claim CRD is built and validateClaimNames succeeds only past all four comparisons; ValidateUpdate compares the immutable names; the webhook validates first and only dry-runs. Decides construction order and provenance, not schema fidelity for arbitrary OpenAPI.",
+  "note": "Assumes the last store to a map key wins. Not decided: arbitrary OpenAPI fidelity, 'exactly one referenceable version', API-server defaulting.",
+  "technique": "static analysis: store ordering on go/ssa, access-path provenance of struct literals, gate-crossing reachability",
+ },
+ "C12": {
+  "text": "Static analysis of the revision controller and fetcher: only Spec.Revision and owner references of listed revisions are written; the hash written and compared share source and truncation; no adoption of list elements is reachable after LatestRevision and adoption acts in place; every number stored/created is latestRev+1, creation needs the no-match edge, a failed renumbering never ends as plain success; LatestRevision skips uncontrolled revisions; Manual pins without writing. Decides these shapes, not histories as values.",
+  "note": "Not decided: A-B-A histories over several reconciles, crash points, hash collisions. Finding F5 (fixed by 3a4fff5) is re-derived by R12.3 on the pre-fix code.",
+  "technique": "static analysis: effect-after-aggregate reachability (reader/writer of controller-ness), SSA provenance, gate-crossing reachability",
+ },
+ "C14": {
+  "text": "Static analysis of the package manager: the current revision is applied only after the loop over all revisions completed with every other Active revision applied Inactive (any failure leaves); renumbering happens after the loop to running-max+1; the history delete is gated by the three limit conditions; within an iteration the GC candidate is recorded only past name != currentRevision; names derive only from the revisioner (FriendlyID(name, digest|source)). Decides ordering shapes, not 'at every instant' across crashes.",
+  "note": "Not decided: crash points between applies, registry behaviour. Finding F4 (fixed by d680c1b) is re-derived by R14.4 on the pre-fix code.",
+  "technique": "static analysis: loop-exit and within-iteration reachability, loop-carried phi analysis (running maximum, candidate index), gate-crossing reachability",
+ },
+ "C15": {
+  "text": "Static analysis of the revision reconciler, linters, cache and image backend: Establish is reached only past verified, ok(Parse), ok(Lint), exactly-one-meta and compatibility, and establishes pkg.GetObjects() of that parse; each revision type is wired with its own linter and the meta/object schemes; every return after parsing started is dominated by the cache-write receive, failed writes evict, Store is unreachable under PullNever on flag-consistent paths, cache file operations hold the mutex; the backend rejects a second annotated layer and validates content; Verified=True is set only after ok(Validate) or without config. Decides gating and cache discipline, not byte equality.",
+  "note": "Not decided: equality declared = established over contents, registry vs cache bytes, xpkg build round trip as values.",
+  "technique": "static analysis: gate-crossing reachability, dominator checks, feasible-path enumeration with flag/predicate consistency, lockset analysis, sibling agreement over Setup functions",
+ },
  "C13": {
   "text": "Static lockset and lock-order analysis of the engine and function-runner packages (path-sensitive in the lock state, conditional-defer idiom handled): guarded-by facts for the four shared maps on every path, pairing, acyclic held-to-acquired graph closed over calls made under a lock; watch start/stop actions re-decided under the write lock; one source per id after ok(Watch); the watch collector's stop list only takes ids compared equal to WatchTypeComposedResource. Decides the discipline on the named fields and mutexes, not absence of races/deadlocks as a whole-program theorem.",
   "note": "Locks are identified by struct type and field (instance-insensitive). Not decided: informer behaviour, scheduling, whole-program race freedom. Finding F1 (fixed by commit 958191f) is re-derived by R13.6 on the pre-fix code.",
